@@ -94,7 +94,8 @@ Fixpoint local_rest (il : option loc) (ns : list name) (ls : list loc) (ats : li
   | _, _, _ => []
   end.
 
-(* cgLocalVarDeclStat (since fixes/C07-multi-local-order.diff): the expressions that are visited - all of them up to
+(* cgLocalVarDeclStat (since fixes/C07-multi-local-order.diff, BEFORE fixes/C20-local-surplus.diff; now every
+   expression is visited): the expressions that are visited - all of them up to
    and including the first one beyond the names - and, afterwards, the variables created for the names that have an
    initialiser (then local_rest for the others) *)
 Fixpoint local_visited (ns : list name) (ls : list loc) (ats : list attr) (es : list exp) {struct es} : list exp :=
@@ -210,21 +211,11 @@ with tr_stat (s : stat) (flv slv : N) (g : ign) {struct s} : list action * ign :
     (* for every variable: its expression (if any) is visited, then the variable is resolved; surplus expressions last *)
     assign_thread flv slv vars (map (fun e => (e, fun g0 => tr_exp e None flv g0)) es) g
   | SLocal ns ls ats es l =>
-    (* all the initialisers first, then the names (before fixes/C07-multi-local-order.diff: name i right after
-       initialiser i, so a later initialiser saw the earlier names of the statement) *)
-    let (a1, g1) :=
-        (* = thread (fun x g0 => tr_exp x None flv g0) (local_visited ns ls ats es) g, written as a structural loop *)
-        (fix go (ns : list name) (ls : list loc) (ats : list attr) (es : list exp) (g : ign) {struct es}
-           : list action * ign :=
-           match es with
-           | e :: es' =>
-             let (a1, g1) := tr_exp e None flv g in
-             match ns, ls, ats with
-             | _ :: ns', _ :: ls', _ :: ats' => let (a2, g2) := go ns' ls' ats' es' g1 in (a1 ++ a2, g2)
-             | _, _, _ => (a1 ++ [], g1)          (* i >= nNames: break, the remaining expressions are never visited *)
-             end
-           | [] => ([], g)
-           end) ns ls ats es g in
+    (* all the initialisers first - EVERY one, those beyond the names included (fixes/C20-local-surplus.diff; before:
+       the loop ended after the first initialiser beyond the names) -, then the names (before
+       fixes/C07-multi-local-order.diff: name i right after initialiser i, so a later initialiser saw the earlier
+       names of the statement) *)
+    let (a1, g1) := thread (fun x g0 => tr_exp x None flv g0) es g in
     (a1 ++ local_add_acts (Scope.init_loc ns ls es l) ns ls ats es, g1)
   | SLocalFunc n nl f _ =>
     let (a, g1) := tr_exp f None flv g in
@@ -314,6 +305,10 @@ with tr_stat_fx (s : stat) (flv slv : N) (g : ign) {struct s} : list action * ig
     if Scope.bf_multi_local fx then
     (* all the initialisers first, then the names (before fixes/C07-multi-local-order.diff: name i right after
          initialiser i, so a later initialiser saw the earlier names of the statement) *)
+      if Scope.bf_surplus fx then
+        let (a1, g1) := thread (fun x g0 => tr_exp_fx x None flv g0) es g in
+        (a1 ++ local_add_acts il ns ls ats es, g1)
+      else
         let (a1, g1) :=
           (* = thread (fun x g0 => tr_exp_fx x None flv g0) (local_visited ns ls ats es) g, written as a structural loop *)
           (fix go (ns : list name) (ls : list loc) (ats : list attr) (es : list exp) (g : ign) {struct es}
@@ -341,7 +336,11 @@ with tr_stat_fx (s : stat) (flv slv : N) (g : ign) {struct s} : list action * ig
              | [] => (a1 ++ AAdd v :: local_rest il ns' ls' ats' (if is_call_exp e then Some e else None), g1)
              | _ => let (a2, g2) := go ns' ls' ats' es' g1 in (a1 ++ AAdd v :: a2, g2)
              end
-           | _, _, _ => (a1, g1)            (* i >= nNames: break, the remaining expressions are never visited *)
+           | _, _, _ =>                     (* i >= nNames: break, the remaining expressions are never visited;
+                                               with fixes/C20-local-surplus.diff: continue, they are visited *)
+             if Scope.bf_surplus fx then
+               let (a2, g2) := thread (fun x g0 => tr_exp_fx x None flv g0) es' g1 in (a1 ++ a2, g2)
+             else (a1, g1)
            end
          | [] => (local_rest il ns ls ats None, g)
          end) ns ls ats es g
@@ -567,7 +566,8 @@ with frag_stat (s : stat) : bool :=
   | SAssign [EName n _] [e] _ => name_ok n && frag_exp e
   | SLocal ns ls ats es _ =>
     forallb name_ok ns && (length ns =? length ls)%nat && (length ns =? length ats)%nat
-    && (length es <=? length ns)%nat && negb (length ns =? 0)%nat && forallb frag_exp es
+    && negb (length ns =? 0)%nat && forallb frag_exp es      (* any number of initialisers: those beyond the names are
+                                                                analysed too since fixes/C20-local-surplus.diff *)
   | SLocalFunc n _ f _ => name_ok n && is_func_exp f && frag_exp f
   | _ => false
   end
